@@ -4,8 +4,11 @@
 #   demo passes without the change, tests still pass with it, demo fails with it; then runs the named checks
 #   (default: the property's own) against the changed tree (VERIF_REPO) and records everything in /verif/seeded/<CXX>-<n>/.
 ID=$1; N=$2; shift 2; CHECKS=${@:-$ID}
-lc=$(echo $ID | tr 'A-Z' 'a-z'); OUT=/tmp/rt/$lc-out
-sfx=""; [ "$N" = "2" ] && sfx="2"
+lc=$(echo $ID | tr 'A-Z' 'a-z'); RT=/tmp/rt
+# candidates 1,2 come from the first round (/tmp/rt), 3,4 from the second round (/tmp/rt2)
+[ "$N" -ge 3 ] && RT=/tmp/rt2
+OUT=$RT/$lc-out
+sfx=""; { [ "$N" = "2" ] || [ "$N" = "4" ]; } && sfx="2"
 PATCH=$OUT/patch$sfx.diff; DEMO=$OUT/demo$sfx; META=$OUT/meta$sfx.json
 [ -f "$PATCH" ] || { echo "no $PATCH"; exit 2; }
 export GOFLAGS=-mod=mod GOPROXY=off GOSUMDB=off GOTOOLCHAIN=local
@@ -14,7 +17,7 @@ DEST=/verif/seeded/$ID-$N; mkdir -p $DEST; LOG=$DEST/confirm.log
 [ -n "$DEMO_ONLY" ] && LOG=$DEST/confirm-demo.log
 : > $LOG
 rundemo() { # run the non-comment lines of RUN.txt in the worktree
-  ( cd $WT; grep -E '^\s*(export |cp |go |rm |mkdir |cd |GOFLAGS=|GOMAXPROCS=|CGO_ENABLED=|touch |chmod )' $DEMO/RUN.txt | grep -v 'git ' | sed "s#/tmp/rt/$lc-out#@@OUT@@#g; s#/tmp/rt/$lc#$WT#g; s#@@OUT@@#$OUT#g" > /tmp/sd/run-$lc-$N.sh; timeout 900 bash /tmp/sd/run-$lc-$N.sh 2>&1 | tail -40 )
+  ( cd $WT; grep -E '^\s*(export |cp |go |rm |mkdir |cd |GOFLAGS=|GOMAXPROCS=|CGO_ENABLED=|touch |chmod )' $DEMO/RUN.txt | grep -v 'git ' | sed "s#$RT/$lc-out#@@OUT@@#g; s#$RT/$lc#$WT#g; s#@@OUT@@#$OUT#g" > /tmp/sd/run-$lc-$N.sh; timeout 900 bash /tmp/sd/run-$lc-$N.sh 2>&1 | tail -40 )
 }
 echo "== demo WITHOUT the change" | tee -a $LOG; rundemo | tee -a $LOG | grep -E "^(--- |ok|FAIL|PASS|panic)" | head -8
 git -C $WT checkout -q -- . ; git -C $WT clean -fdq
